@@ -1172,6 +1172,26 @@ class Interp:
         """Equality of two partly abstract strings (flattened pieces: literal text or an abstract piece such as the text of
         a number).  Decided when a literal mismatch, or a literal that cannot be the text of a number, settles it."""
         xs, ys = [t for t in fa_ if t != ""], [t for t in fb_ if t != ""]
+        if len(xs) == 1 and len(ys) == 1 and all(isinstance(t, tuple) and t[0] == "opaque" and t[1].startswith("text-of-node#")
+                                                  for t in (xs[0], ys[0])):
+            # the printed forms of two sub-expressions nothing is known about: the same text or not, both happen
+            if xs[0] == ys[0]:
+                return True
+            return self.choose(2, f"same-text({xs[0][1][13:]},{ys[0][1][13:]})", ["true", "false"]) == 0
+        if len(xs) == len(ys) and len(xs) > 1 and self._aligned_pieces(xs, ys):
+            # the same sequence of piece classes (literal text / number / identifier) with unambiguous boundaries: the
+            # texts are equal iff every pair of pieces is
+            for p_, q_ in zip(xs, ys):
+                if isinstance(p_, str):
+                    if p_ != q_:
+                        return False
+                elif p_[0] == "num":
+                    if p_[1] != q_[1] and not self.sign_query(("sub", p_[1], q_[1]), frozenset(["zero"]),
+                                                             f"{A.term_str(p_[1])}=={A.term_str(q_[1])}"):
+                        return False
+                elif not self.ident_eq(Ident(p_[1]), Ident(q_[1])):
+                    return False
+            return True
         # literal text at the end: a mismatch within the common length settles it whatever precedes
         if xs and ys and isinstance(xs[-1], str) and isinstance(ys[-1], str):
             k = min(len(xs[-1]), len(ys[-1]))
@@ -1236,7 +1256,34 @@ class Interp:
             if any(isinstance(t, tuple) and t[0] in ("opaque", "ident") for t in xs[:1] + ys[:1]):
                 # an unknown text against other text: both answers are possible
                 return self.atom(f"same-text:{xs[:2]!r}:{ys[:2]!r}")
+            if any(isinstance(t, tuple) and t[0] == "opaque" and t[1].startswith("text-of-node#") for t in xs + ys):
+                # the printed form of a sub-expression nothing is known about takes part: both answers are possible
+                return self.atom(f"same-text:{xs[:3]!r}:{ys[:3]!r}")
             raise Unsupported(f"equality of partly abstract strings {a!r} and {b!r} at {self.site}")
+        return True
+
+    @staticmethod
+    def _aligned_pieces(xs: list, ys: list) -> bool:
+        def cls(t):
+            if isinstance(t, str):
+                return "lit"
+            return t[0] if isinstance(t, tuple) and t[0] in ("num", "ident") else None
+        cx, cy = [cls(t) for t in xs], [cls(t) for t in ys]
+        if cx != cy or None in cx:
+            return False
+        for seq in (xs, ys):
+            for i in range(len(seq) - 1):
+                a_, b_ = seq[i], seq[i + 1]
+                ca, cb = cls(a_), cls(b_)
+                if ca == cb:
+                    return False
+                for lit_, other, edge in ((a_, cb, -1), (b_, ca, 0)):
+                    if isinstance(lit_, str):
+                        ch = lit_[edge]
+                        if other == "num" and (ch.isdigit() or ch in ".eE+-" or ch.isalpha()):
+                            return False
+                        if other == "ident" and (ch.isalpha() or ch == "_" or ch.isdigit()):
+                            return False
         return True
 
     def _contains(self, container, x) -> bool:
@@ -1891,6 +1938,15 @@ class Interp:
         if not isinstance(pos, int) or not (endpos is None or isinstance(endpos, int)):
             raise Unsupported(f"regex {method} with abstract position at {self.site}")
         pos = max(0, min(pos, len(items)))
+        if all(isinstance(x, str) and len(x) == 1 for x in items) and method in ("match", "fullmatch", "search"):
+            # a fully concrete subject: the library's own engine gives the answer (the matcher below is for symbolic text)
+            import re as _re
+            text_ = "".join(items)
+            m_ = getattr(_re.compile(rx.pattern, rx.flags), method)(text_, pos, len(text_) if endpos is None else endpos)
+            if m_ is None:
+                return None
+            groups_ = [None] + [m_.span(k) if m_.span(k) != (-1, -1) else None for k in range(1, (m_.re.groups or 0) + 1)]
+            return MatchObj(rx, items, m_.start(), m_.end(), groups_)
 
         def tester(i, pred, label):
             x = items[i]
@@ -2055,6 +2111,9 @@ class Interp:
             flat_ = _flatten_render(obj)
             if all(isinstance(x, str) for x in flat_):
                 obj = "".join(flat_)   # a fully concrete text: every str method applies
+            elif len(flat_) == 1 and isinstance(flat_[0], tuple) and flat_[0][0] == "ident" \
+                    and attr in ("lower", "upper", "casefold", "strip", "title", "capitalize", "swapcase"):
+                obj = Ident(flat_[0][1])   # the text of one symbolic identifier is that identifier
             elif attr in ("lstrip", "rstrip"):
                 return Bound(obj, _StrMethod("render:" + attr))
         if isinstance(obj, (str, Render)):
@@ -2282,10 +2341,22 @@ class Interp:
             return Render((("ident", v.name),))
         if isinstance(v, Node):
             cell = self.cell(v)
+            if getattr(self, "_msg_mode", 0):
+                return Render((("opaque", f"text-of-node#{cell.cid}"),))
+            if not cell.fresh and cell.mirror is None and len(cell.kinds) > 1 and not self.config.get("print_summaries"):
+                # a pre-existing sub-expression of unknown class: its printed form is kept as one abstract piece instead of
+                # enumerating every expression it could be
+                return Render((("opaque", f"text-of-node#{cell.cid}"),))
             res = self._resolve_class_attr(cell, "__str__")
             if res is None or res[0] != "method":
                 return Render((("opaque", f"object#{cell.cid}"),))
-            inner = self.call_function(res[1], [v], {})
+            try:
+                inner = self.call_function(res[1], [v], {})
+            except Unsupported:
+                if cell.fresh or cell.mirror is not None or self.config.get("print_summaries"):
+                    raise
+                # the printer inspects the text of a sub-expression nothing is known about: the whole form stays abstract
+                return Render((("opaque", f"text-of-node#{cell.cid}"),))
             if isinstance(inner, str):
                 inner = Render((inner,))
             if not isinstance(inner, Render):
@@ -2358,6 +2429,18 @@ class Interp:
         elif isinstance(st, ast.Raise):
             if st.exc is None and getattr(self, "_current_exc", None) is not None:
                 raise self._current_exc
+            if isinstance(st.exc, ast.Call):
+                # the message is built before the exception exists: an exception while building it is what escapes.  The
+                # text itself is of no interest (sub-expressions print as one abstract piece)
+                self._msg_mode = getattr(self, "_msg_mode", 0) + 1
+                try:
+                    for a_ in list(st.exc.args) + [k.value for k in st.exc.keywords]:
+                        try:
+                            self.eval(a_, env)
+                        except (Unsupported, BoundExceeded):
+                            pass
+                finally:
+                    self._msg_mode -= 1
             raise AbsRaise(self._exc_name(st.exc, env), self.site, unparse(st.exc) if st.exc else "")
         elif isinstance(st, ast.FunctionDef):
             env.vars[st.name] = Fn(FuncInfo(env.module, st, None), env)
@@ -3372,6 +3455,13 @@ def _call_builtin_method(self: Interp, info, args, kwargs):
         if n == "format":
             if isinstance(obj, str):
                 return self.format_str(obj, rest)
+            # the template is not a literal: data is part of it.  Text that is not the spelling of a number or of an
+            # identifier can hold "{" / "}", which format() reads as a replacement field: KeyError for "{x}", IndexError
+            # for "{}" beyond the arguments, ValueError for a lone brace
+            data = [t for t in _flatten_render(obj) if isinstance(t, tuple) and t[0] not in ("num", "ident")]
+            if data and self.choose(2, f"format-field-in-data@{self.site.split(':L')[-1]}", ["no", "yes"]) == 1:
+                raise AbsRaise("KeyError", self.site, f"str.format() on a template that contains data ({data[0]!r}): a brace in "
+                               f"the data is read as a replacement field (KeyError / IndexError / ValueError)")
             return Opaque("format")
         if n == "join" and isinstance(obj, str):
             items = rest[0].items if isinstance(rest[0], (Lst, Tup)) else None
